@@ -160,5 +160,46 @@ func stressTT(seed int64, tier string) {
 			fmt.Printf("IMPLVIOL ttstress round=%d size=%d writers=%d :: fill counter %d but %d slots occupied prop=C17 key=used-count\n", round, size, nw, got, occ)
 		}
 	}
-	fmt.Printf("stress rounds=%d reads=%d hits=%d violations=%d\n", rounds, reads, hits, viol)
+	// replacement is monotone under concurrency too: writers storing depths 1..8 (same ply) for one fresh
+	// hash at the same moment - whatever the interleaving, once all have returned the slot holds the
+	// deepest one, because a store may only replace an entry of no greater replacement value
+	mrounds := 30000
+	if tier == "thorough" {
+		mrounds = 600000
+	}
+	big := search.NewTranspositionTable(ctx, 1<<22)
+	const writers = 8
+	starts := make([]chan uint64, writers)
+	var done sync.WaitGroup
+	for w := 0; w < writers; w++ {
+		starts[w] = make(chan uint64)
+		go func(w int) {
+			for h := range starts[w] {
+				d := w + 1
+				big.Write(board.ZobristHash(h), search.ExactBound, 10, d, eval.HeuristicScore(eval.Pawns(d)), board.Move{From: board.Square(d), To: board.Square(d + 8)})
+				done.Done()
+			}
+		}(w)
+	}
+	lost := 0
+	for round := 0; round < mrounds; round++ {
+		h := r.Uint64()
+		done.Add(writers)
+		for w := 0; w < writers; w++ {
+			starts[w] <- h
+		}
+		done.Wait()
+		_, d, _, _, ok := big.Read(board.ZobristHash(h))
+		if !ok || d != writers {
+			lost++
+			if lost <= 3 {
+				fmt.Printf("IMPLVIOL ttstress monotone round=%d hash=%x :: eight concurrent stores of depths 1..8 for one hash left depth %d (found=%v) in the slot: a store replaced an entry of greater replacement value prop=C17 key=replaced-greater\n", round, h, d, ok)
+			}
+			viol++
+		}
+	}
+	for w := 0; w < writers; w++ {
+		close(starts[w])
+	}
+	fmt.Printf("stress rounds=%d reads=%d hits=%d monotone=%d violations=%d\n", rounds, reads, hits, mrounds, viol)
 }
